@@ -284,3 +284,11 @@ where
         self.kktsolver.update_A(A);
     }
 }
+
+#[cfg(clarabel_verif)]
+impl<T: FloatT> DefaultKKTSystem<T> {
+    /// verification hook: (KKT values, map.P, map.A) of the live KKT solver
+    pub fn verif_kkt_values(&self) -> Option<(Vec<T>, Vec<usize>, Vec<usize>)> {
+        self.kktsolver.verif_kkt_values()
+    }
+}
